@@ -88,3 +88,4 @@ Proof.
   split; [|split; assumption]. apply S3. rewrite S1.
   pose proof (Nat.div_mod q 32 ltac:(lia)). pose proof (Nat.mod_upper_bound q 32 ltac:(lia)). lia.
 Qed.
+
